@@ -12,6 +12,10 @@
 (*     per started group of `perfile` functions), and `datasegments` in    *)
 (*     the external data-segment modes                                     *)
 (*   - touches nothing else.                                               *)
+(* A run that FAILS (unsupported instruction met half-way, header cannot   *)
+(* be created, reference module unreadable, ...) may stop anywhere: what   *)
+(* it has created or overwritten by then lies in Written(o), what it has   *)
+(* deleted in Deleted(o, dir) - in particular nothing without -c.          *)
 (*                                                                         *)
 (* IsImplCoded transcribes the test in main.c (length, first letter, digit *)
 (* loop bounds, the "*.c" glob); PatternAgrees checks it against the       *)
